@@ -131,6 +131,27 @@ Theorem C16_list_walk_terminates : forall g k path, fine (walk_fields (S (length
 Proof. exact walk_fields_terminates. Qed.
 Print Assumptions C16_list_walk_terminates.
 
+(* with every reference linked, the list walk succeeds on every graph, recursive item objects
+   included, and the client stage accepts the list method and attaches the walked paths *)
+Theorem C16_list_walk_total : forall g root, all_refs_link g = true -> present g root ->
+  exists paths, walk_fields (S (length g)) g root [] [] = Ok paths.
+Proof. exact list_walk_total. Qed.
+Print Assumptions C16_list_walk_total.
+
+Theorem C16_list_method_total : forall (im : image) sub svc (m : src_method) req resp root,
+  all_refs_link (im_schemas im) = true ->
+  lookup (im_schemas im) (sub_pkg im sub, sm_req m) = Some (SObject req) ->
+  str_eqb (sm_resp m) HTTPBODY_SHORT = false ->
+  lookup (im_schemas im) (sub_pkg im sub, sm_resp m) = Some (SObject resp) ->
+  is_query_request req = true -> list_root (Some resp) = Ok root ->
+  exists paths,
+    walk_fields (S (length (im_schemas im))) (im_schemas im) root [] [] = Ok paths /\
+    method_from_source true im sub svc m =
+    Ok {| cm_service := svc; cm_name := sm_name m; cm_verb := sm_verb m; cm_path := sm_path m;
+          cm_req := fill_request (sm_verb m) (sm_path m) req; cm_resp := Some resp; cm_list := Some paths |}.
+Proof. exact list_method_total. Qed.
+Print Assumptions C16_list_method_total.
+
 (* ... and without it (the snapshot): no fuel suffices on a one-node cycle — finding 29 *)
 Theorem C16_list_walk_unguarded_refuted : forall fuel path,
   walk_fields_unguarded fuel cyc_env cyc_key path = OutOfFuel.
